@@ -348,7 +348,8 @@ def spread_machines(rng, spec):
     if nm == 0:
         return spec
     labels = sorted(rng.sample(range(nm + 3), nm))
-    rng.shuffle(labels) if rng.random() < 0.5 else None
+    if rng.random() < 0.5:
+        rng.shuffle(labels)
     return [[[[labels[m] for m in ms], d] for ms, d in job] for job in spec]
 
 
@@ -416,7 +417,9 @@ class C14(Check):
         "round trips of schedules are claimed for instances whose operations have exactly one machine and for "
         "complete dispatcher-built schedules; flexible / partial ones are tied to the model only",
         "accepted <=> acyclic is claimed for true per-machine permutations of single-machine instances; "
-        "ill-formed sequences are tied to the model only",
+        "ill-formed sequences (wrong multiplicities, ids out of range, negative ids, wrong number of rows) are "
+        "tied to the model, and the general theorems (never out of fuel, accepted => feasible and complete, "
+        "rejected => IndexError or ValidationError) cover them",
     ]
     modelled_not_verified = [
         "modelled: JobShopInstance.set_operation_attributes, every cached view, to_dict, from_matrices, "
@@ -429,7 +432,11 @@ class C14(Check):
         "would be vacuous; decided by deep snapshots (operation fields, list identities and contents, name, "
         "metadata, cached views) around a dispatcher with observers, a dispatching-rule solver, the CP-SAT solver, "
         "every graph builder and a SingleJobShopGraphEnv episode",
-        "the acyclicity oracle of the perm stream is a 30-line Kahn algorithm in the harness (not extracted)",
+        "perm stream: for true per-machine permutations the model's verdict IS the specification "
+        "(C14_true_permutation_outcome: accepted <=> a linear extension of job order + machine order exists, "
+        "otherwise ValidationError), so impl == model decides the clause; a 30-line Kahn algorithm in the harness "
+        "(not extracted) re-decides acyclicity independently; the textbook step 'acyclic <=> has a linear "
+        "extension' is not formalised (theorem named _partial)",
     ]
     nontrivial_rule = ("views: >= 2 jobs and >= 3 operations; taillard/sched/perm: >= 2 jobs and >= 3 operations; "
                        "immut: the scenario ran to the end; distinct = distinct SHA1 of the whole case")
@@ -460,7 +467,33 @@ class C14(Check):
                 kind = "perm"
             cases.append(getattr(self, "gen_" + kind)(rng))
             self.note("kind_" + kind)
+        # bounded-exhaustive: ALL per-machine permutations of small single-machine instances
+        n_inst, cap = (25, 40) if self.tier == "quick" else (300, 400)
+        if n < 1000:
+            n_inst = 3
+        for _ in range(n_inst):
+            cases.extend(self.gen_perm_exhaustive(rng, cap))
         return cases
+
+    def gen_perm_exhaustive(self, rng, cap):
+        import itertools
+
+        spec = common.gen_instance(rng, max_jobs=3, max_machines=2, max_ops=3, flexible=False,
+                                   zero=rng.random() < 0.5)
+        nm = common.num_machines_of(spec)
+        base = [[] for _ in range(nm)]
+        for j, job in enumerate(spec):
+            for ms, _ in job:
+                base[ms[0]].append(j)
+        rows = [sorted(set(itertools.permutations(b))) for b in base]
+        combos = list(itertools.islice(itertools.product(*rows), 5000))
+        if len(combos) > cap:
+            combos = rng.sample(combos, cap)
+        self.note("perm_exhaustive_instances")
+        self.note("perm_exhaustive_cases", len(combos))
+        self.note_spec(spec)
+        return [{"kind": "perm", "spec": spec, "seqs": [list(r) for r in c], "variant": "exhaustive"}
+                for c in combos]
 
     def note_spec(self, spec):
         st = common.instance_stats(spec)
@@ -958,6 +991,7 @@ class C14(Check):
     def judge_immut(self, case, obs, outs):
         diffs, raised, views_ok = obs
         fails = []
+        self.note("immut_consumer_" + {0: "finished", 1: "raised", 2: "timed_out"}[raised])
         for i in diffs:
             fails.append(Failure("oracle", "instance-mutated:" + SNAP_FIELDS[i],
                                  f"scenario {case['scenario']} changed the instance ({SNAP_FIELDS[i]})"))
